@@ -37,6 +37,9 @@ CHECKS = {
  "C12": ("exploration", "fragmentation-enumerating reader shim around the exported chunk readers (every single cut and header-neighbourhood cut pairs of short streams, boundary-biased cuts of long ones, 12 destination buffer sizes) with an independent encoder; every single-byte mutation and truncation of short streams; real chunked PUTs over sockets written in chosen fragments",
    "For legal streams of all three aws-chunked modes and five checksum algorithms the decoded bytes must equal the payload and end with io.EOF under EVERY enumerated fragmentation and buffer size; every single-byte mutation, truncation point and named defect of short streams must end in an error or in exactly the payload. Exhaustive over single cuts for streams <= 600 bytes; long streams and socket fragmentation are sampled.",
    "Trusts the harness encoder (written from the AWS specification and self-checked per stream), and that a reader-level fragmentation shim represents network read boundaries.", "3/C12"),
+ "C02": ("exploration", "endpoint catalogue x credential-defect catalogue x body/encoding against a uid-confined gateway; monitors: status class, byte-exact snapshot of root/versioning/sidecar/IAM trees, canary strings in responses; positive control per endpoint",
+   "Every route/sub-resource/path shape (104 catalogue entries incl. trailing-slash and directory forms, copies, multipart, admin) is sent with each of 42 SigV4 defects (missing/malformed authorization, unknown key, wrong secret, flipped signature nibble, altered signed header/query/payload/hash, date skew by hours, scope/region/service mismatch, presign expiry/alteration, streaming seed/chunk inconsistencies) and each body class (empty, valid, 1 MiB, three aws-chunked encodings), signed as root and as an IAM admin; the request must be answered 4xx, leave the four trees byte-identical and disclose no seeded data. The same entry with a correct signature must have its effect, else the entry counts as dead.",
+   "Trusts the harness's independent SigV4 implementation (validated by the positive controls), snapshot completeness; dates are skewed by hours so no verdict depends on machine speed.", "3/C02"),
 }
 PENDING_REASON = "check not yet built in this session (under construction; see DESIGN.md section 3)"
 props=[json.loads(l)["id"] for l in open(os.path.join(V,"properties.jsonl"))]
